@@ -111,6 +111,7 @@ type Task struct {
 	daemon    bool  // started by a go statement of the code under test: the run does not wait for it
 	exiting   bool  // being torn down with runtime.Goexit at the end of the run
 	started   bool
+	gone      bool // its goroutine has handed the baton on for the last time
 }
 
 // IsDaemon reports whether the task was started by the code under test.
@@ -167,7 +168,7 @@ type timer struct {
 }
 
 // vcHeadroom is how many goroutines the code under test may start per run.
-const vcHeadroom = 32
+const vcHeadroom = 160
 
 var (
 	// Cur is the run in progress, nil outside a run. Only ever touched by the goroutine
@@ -260,18 +261,40 @@ func GoFromTimer(f func()) {
 }
 
 func (s *Sim) spawn(f func(), parent *Task) {
-	if len(s.tasks) >= s.vcLen {
-		s.FailInfra(fmt.Sprintf("the code under test started more than %d goroutines in one run", vcHeadroom))
+	// a finished goroutine's slot is reused (the simulator bounds how many goroutines of the
+	// code under test are alive at once, not how many it starts): the newcomer continues the
+	// old incarnation's clock component, which orders it after everything its predecessor
+	// did - that can hide a race between the two incarnations, it cannot invent one
+	slot := -1
+	for i, o := range s.tasks {
+		if o.daemon && o.done && o.gone {
+			slot = i
+			break
+		}
+	}
+	if slot < 0 && len(s.tasks) >= s.vcLen {
+		s.FailInfra(fmt.Sprintf("the code under test has more than %d goroutines alive at once", vcHeadroom))
 		return
 	}
-	t := &Task{ID: len(s.tasks), resume: make(chan struct{}, 1), VC: make([]uint32, s.vcLen), prio: -1000 - len(s.tasks), daemon: true}
+	t := &Task{resume: make(chan struct{}, 1), VC: make([]uint32, s.vcLen), daemon: true}
 	if parent != nil {
 		// the go statement happens before the goroutine's execution begins
 		copy(t.VC, parent.VC)
 		parent.VC[parent.ID]++
 	}
-	t.VC[t.ID] = 1
-	s.tasks = append(s.tasks, t)
+	if slot >= 0 {
+		t.ID = slot
+		t.VC[slot] = s.tasks[slot].VC[slot] + 1
+		t.prio = s.tasks[slot].prio
+		s.tasks[slot] = t
+		s.Faults.Inc("goroutine_slot_reused")
+	} else {
+		t.ID = len(s.tasks)
+		t.prio = -1000 - len(s.tasks)
+		t.VC[t.ID] = 1
+		s.tasks = append(s.tasks, t)
+		width = len(s.tasks)
+	}
 	s.Faults.Inc("goroutine_started_by_code")
 	s.launch(t, func(int) { f() })
 }
@@ -283,6 +306,7 @@ func (s *Sim) launch(t *Task, body func(task int)) {
 		t.started = true
 		defer func() {
 			t.done = true
+			t.gone = true
 			s.taskDone(t)
 			s.exit <- struct{}{}
 		}()
@@ -394,6 +418,7 @@ func (s *Sim) Run(n int, arrive []int64, body func(task int)) {
 		}
 		s.tasks[i] = t
 	}
+	width = n
 	s.setupStrategy()
 	s.exit = make(chan struct{}, 4)
 	Cur = s
@@ -785,10 +810,21 @@ func (s *Sim) pick(cur *Task) *Task {
 	return en[0]
 }
 
+// width is the number of task slots in use in the current run: vector clocks are allocated
+// with room for every goroutine the code under test may start, but only this prefix is live.
+var width int
+
 // JoinVC merges src into dst.
 func JoinVC(dst, src []uint32) {
-	for i := range src {
-		if i < len(dst) && src[i] > dst[i] {
+	n := width
+	if len(src) < n {
+		n = len(src)
+	}
+	if len(dst) < n {
+		n = len(dst)
+	}
+	for i := 0; i < n; i++ {
+		if src[i] > dst[i] {
 			dst[i] = src[i]
 		}
 	}
